@@ -72,10 +72,10 @@ def observe(sess, hist, op, exc, valid, reason, pre, acc):
                                      f"remove of {sizes[0]} bytes shrank the file by {len(pre['disk']) - len(data)}")
 
 
-_shard = kcommon.make_run(__name__, "observe")
+_shard = kcommon.make_run(__name__, "observe", extra_ops=kcommon.long_comment_ops)
 
 
-_chain = kcommon.make_chain_run(__name__, "observe")
+_chain = kcommon.make_chain_run(__name__, "observe", extra_ops=kcommon.long_comment_ops)
 
 
 def run(tier):
